@@ -48,6 +48,8 @@ class Ctx:
         if z3.is_true(c):
             return
         self.add(c)
+        if self.pos >= len(self.prefix) and not self.check():
+            raise PathEnd('infeasible', 'assumption contradicts the path condition')
 
     def decide(self, conds, exhaustive=True):
         """choose one of the mutually exclusive conditions; returns its index"""
